@@ -340,6 +340,7 @@ class is_flag_active_visitor<Flag, flag_and>""")]),
         m_history.reset_event_pool(self(), event);
 
         state_entry_visitor<Event> visitor{self(), event};""")]),
+ dict(name='revert-d29-back-raw-stamp-order', prop='C05', rule='C05.seq-order', edits=[(B, """                return static_cast<signed char>(d1.second - d2.second) > 0;""", """                return d1.second > d2.second;""")]),
  dict(name='revert-d20-puml-terminate-suffix', prop='C14', rule='C14.puml', edits=[('include/boost/msm/front/puml/puml.hpp', """cleanup_token(stt().substr(endl_before_pos + 1, arrow_pos - endl_before_pos - 1)) == state_name())""", """cleanup_token(stt().substr(state_pos, arrow_pos - state_pos)) == state_name())""")]),
  dict(name='flagfold-back11-early-break', prop='C17', rule='C17.pure', edits=[(B11, """            res = typename BinaryOp::type() (res,(*flags_entries[ m_states[i] ])(*this));""", """            res = typename BinaryOp::type() (res,(*flags_entries[ m_states[i] ])(*this));
             if (res) break;""")]),
